@@ -8,6 +8,7 @@
    for every n, every well-formed table (symbolic) and every v < n, in both storage regimes (v <= 5 and v >= 6).
    Statements only; proofs are in Proofs/DecompProofs.v. *)
 From Coq Require Import List NArith Bool.
+From V Require Proofs.ExprsTie3.  (* whole-word regimes, fill_symmetric, text widths: regenerated from the Rust source, equal the model's *)
 From V Require Proofs.ExprsTie.   (* the kernels' word-level expressions, regenerated from the Rust source, equal the model's *)
 From V Require Import Base.Res Model.Kernels Model.Decomp Model.Api Spec.Bfun Proofs.ApiTransforms Proofs.DecompProofs.
 Import ListNotations.
